@@ -30,10 +30,13 @@ import (
 	"github.com/bufbuild/buf/private/bufpkg/bufimage"
 	"github.com/bufbuild/buf/private/bufpkg/bufimage/bufimageutil"
 	"github.com/bufbuild/buf/private/bufpkg/bufmodule"
+	"github.com/bufbuild/buf/private/bufpkg/bufmodule/bufmodulecache"
+	"github.com/bufbuild/buf/private/bufpkg/bufmodule/bufmodulestore"
 	"github.com/bufbuild/buf/private/bufpkg/bufmodule/bufmoduletesting"
 	"github.com/bufbuild/buf/private/bufpkg/bufparse"
 	"github.com/bufbuild/buf/private/pkg/protoencoding"
 	"github.com/bufbuild/buf/private/pkg/storage"
+	"github.com/bufbuild/buf/private/pkg/storage/storagemem"
 	"github.com/bufbuild/buf/private/pkg/thread"
 	"github.com/bufbuild/buf/private/pkg/uuidutil"
 	"github.com/bufbuild/bufverif/internal/bufx"
@@ -331,6 +334,8 @@ func apiScenarios() []Scenario {
 			return out.Bytes(), nil
 		}},
 		{Name: "dep-graph+digests", Variants: 6, Walks: false, Run: depGraphScenario},
+		{Name: "dep-shapes: listing order x module directories", Variants: 12, Walks: true, Run: depShapesScenario},
+		{Name: "dep-graph through a partially warm commit cache", Variants: 16, Walks: false, Run: depGraphCacheScenario},
 		{Name: "module-digests", Variants: 4, Walks: true, Run: func(ctx context.Context, e *Env) ([]byte, error) {
 			ws, err := bufx.Workspace(ctx, e.bucket(workspace(e.Variant, false)), ".", nil, nil, bufx.NopProviders)
 			if err != nil {
@@ -494,6 +499,17 @@ func (m *multiProvider) GetCommitsForCommitKeys(ctx context.Context, keys []bufm
 var pinOrders = [][]int{{0, 1, 2, 3}, {3, 2, 1, 0}, {1, 3, 0, 2}, {2, 0, 3, 1}, {0, 3, 1, 2}, {3, 0, 2, 1}}
 
 func depGraphScenario(ctx context.Context, e *Env) ([]byte, error) {
+	return depGraphRun(ctx, e.Variant, -1)
+}
+
+// depGraphCacheScenario: the same resolution through the caching commit provider over a commit store whose
+// content is what earlier runs left behind: variant = which of the four pinned commits of the dependency are
+// already cached (16 histories). The cache content must not influence which commit is chosen.
+func depGraphCacheScenario(ctx context.Context, e *Env) ([]byte, error) {
+	return depGraphRun(ctx, 0, e.Variant%16)
+}
+
+func depGraphRun(ctx context.Context, variant int, cacheMask int) ([]byte, error) {
 	base := time.Date(2024, 1, 1, 0, 0, 0, 0, time.UTC)
 	mp := &multiProvider{byCommit: map[uuid.UUID]bufmoduletesting.OmniProvider{}}
 	ref, err := bufparse.NewRef("buf.build", "acme", "dep", "")
@@ -534,7 +550,27 @@ func depGraphScenario(ctx context.Context, e *Env) ([]byte, error) {
 		return nil, err
 	}
 	mp.byCommit[id2] = p2
-	builder := bufmodule.NewModuleSetBuilder(ctx, bufx.Logger, mp, mp)
+	var commitProvider bufmodule.CommitProvider = mp
+	if cacheMask >= 0 {
+		store := bufmodulestore.NewCommitStore(bufx.Logger, storagemem.NewReadWriteBucket())
+		var warm []bufmodule.ModuleKey
+		for i := range keys {
+			if cacheMask&(1<<i) != 0 {
+				warm = append(warm, keys[i])
+			}
+		}
+		if len(warm) > 0 {
+			commits, err := mp.GetCommitsForModuleKeys(ctx, warm)
+			if err != nil {
+				return nil, err
+			}
+			if err := store.PutCommits(ctx, commits); err != nil {
+				return nil, err
+			}
+		}
+		commitProvider = bufmodulecache.NewCommitProvider(bufx.Logger, mp, store)
+	}
+	builder := bufmodule.NewModuleSetBuilder(ctx, bufx.Logger, mp, commitProvider)
 	locals := []struct {
 		id    string
 		files map[string]string
@@ -542,8 +578,8 @@ func depGraphScenario(ctx context.Context, e *Env) ([]byte, error) {
 		{"local/a", map[string]string{"a.proto": "syntax = \"proto3\"; package a; import \"dep.proto\"; import \"b.proto\"; message A { dep.Dep d = 1; b.B b = 2; }"}},
 		{"local/b", map[string]string{"b.proto": "syntax = \"proto3\"; package b; import \"other.proto\"; message B { other.Other o = 1; }"}},
 	}
-	order := pinOrders[e.Variant%len(pinOrders)]
-	if e.Variant%2 == 1 {
+	order := pinOrders[variant%len(pinOrders)]
+	if variant%2 == 1 {
 		locals[0], locals[1] = locals[1], locals[0]
 	}
 	for _, l := range locals {
